@@ -293,7 +293,8 @@ contract(BASE + '.service_urls', types={'binding': 'Opt(Str)'}, returns='Opt(Lis
                                         "(binding is None or as_type(cfg_attr(self.config, 'endpoints', 'sp'), 'Dict(Str, List(Tuple(Str, Str)))')['assertion_consumer_service'][j][1] == binding), 0, "
                                         "len(as_type(cfg_attr(self.config, 'endpoints', 'sp'), 'Dict(Str, List(Tuple(Str, Str)))')['assertion_consumer_service']))), 'Val'))")],
          modifies=[], clauses_from={'C05': ['C05-own-endpoints']})
-# Population.add_information_about_person: verified in c_cache.py (C19)
+contract('saml2_tophat.population:Population.add_information_about_person', trusted=True, pure=True, params=['self', 'session_info'],
+         returns='Any', raises={'Exception': 'True'}, note='ASSUMED: stores a copy of the session information (C19); does not touch the response')
 contract(ARQ + '.session_info', trusted=True, pure=True, params=['self'], returns='Dict(Str, Any)', raises={'Exception': 'True'},
          note='ASSUMED: reads the response object')
 _RR = 'as_type(result, "Inst(\'%s\')")' % ARQ
